@@ -76,12 +76,12 @@ def signature(v: dict) -> str:
 def execute_guarded(mod, program: dict) -> dict:
     """Execute one program; a watchdog hang or harness exception is classified."""
     signal.signal(signal.SIGALRM, _alarm)
-    signal.alarm(RUN_WALL_S)
+    signal.alarm(int(getattr(mod, "RUN_WALL_S", RUN_WALL_S)))
     try:
         res = mod.execute(program)
     except RunHang:
         res = {
-            "violation": {"tag": "hang", "op": "run", "detail": f"no return within {RUN_WALL_S}s"},
+            "violation": {"tag": "hang", "op": "run", "detail": f"no return within {getattr(mod, 'RUN_WALL_S', RUN_WALL_S)}s"},
             "digest": "hang",
             "steps": 0,
         }
